@@ -45,6 +45,17 @@ PROPS = {
                        "themselves (serde_json, serde_yaml, toml, base64).",
         "assumptions": ["serde_json/serde_yaml/toml/base64 decode and encode correctly"],
     },
+    "C18": {
+        "module": "c18",
+        "explanation": "Translator/VM wiring rules: a bare word after `.` is lowered to a string index, never a DeRef, and op_index "
+                       "never consults bindings (R43); no formatting argument of the missing-selector diagnostic derives from the "
+                       "container operand other than through Value::type_name (R44, provenance over MIR); Index passes !strict, "
+                       "SafeIndex true, the safe edge yields NULL and the strict edge an error (R45); std::env::vars is read once "
+                       "in main and flows only into the Environment, env_vars has no later writer, the env tuple is built from it "
+                       "alone and a local symbol named env wins (R46); `env` aborts both binding forms in the parser (R47). "
+                       "Not decided: the values of variables as strings (OS encoding).",
+        "assumptions": ["Value::type_name returns a &'static str that names the kind only (checked: body has only constant arms)"],
+    },
 }
 
 
